@@ -174,8 +174,14 @@ pub fn drive(tier: &str) -> i32 {
     if (run.cases as usize) < total_cases {
         run.capped = true;
     }
+    // history independence with the typed-variable monitor on: the call programs of C03 (numeric parameters of every
+    // type, by reference and by value) after each disturbing prefix
+    let dtexts: Vec<String> = vcore::gen03::arg_programs().iter().filter(|c| !c.expect_reject).map(|c| vcore::gprint::print_default(&c.prog).text).collect();
+    let dgroup = super::disturbw::run_group(&mut run, &pool, &dtexts, if tier == "quick" { 4 } else { 1 }, true);
     let mut ev = Evidence::new("exploration");
-    ev.set("rule", "conversions: for every ordered pair (source type, target type) of the four numeric types, every value of the target's boundary lattice {MIN-1, MIN-.75, MIN-.25, MIN, MIN+.25, MIN+1, -1, -.75, -.25, 0, .25, .75, 1, MAX-1, MAX-.25, MAX, MAX+.25, MAX+.75, MAX+1} that the source type can denote, delivered through 9 routes (assignment to a variable, an array element, a record field, by-value parameter, FUNCTION result, FOR start with the increment past it, READ, INPUT, FOR limit), the source as a literal and as a typed variable. arithmetic: + - * / MOD and unary minus on all pairs of the INTEGER and LONG boundary lattices (mixed types included), results printed and stored into INTEGER / LONG targets. float-extremes: + - * / and unary minus on every pair from {MAX, MAX/2, -MAX, -MAX/2} x {the same, 2, -2, .5, 2.0, 2.0#, 1, 0} (both orders) of SINGLE and of DOUBLE, printed and stored, observed through comparisons only (a result beyond the type is Overflow, a result that fits is exact); quotients by divisors of 2^-16, 2^-17, 2^-20 (not zero, but below the 0.00001 tolerance of the interpreter's comparisons); DOUBLE values MAX, MAX + 1 ulp and 2 * MAX of SINGLE stored into a SINGLE variable, array element, record field and FUNCTION result. for-steps: FOR with a counter of each numeric type and a step of another type (1.25, 1.75, 2.25, -1.25 as SINGLE / DOUBLE literals and variables, 2, 70000), and the increment past the INTEGER / LONG maximum with a fractional step. close-pairs: two values 2^-20 below and above a rounding tie (2.5, -2.5, .5, 100.5) or a range limit (MAX + .5, MIN - .5, MAX - .5) converted to INTEGER / LONG one right after the other, in both orders, from DOUBLE and SINGLE, as literals, through variables and as by-value arguments of two consecutive calls. unary-and-powers: NOT, unary minus, AND 6 and OR 1 of a variable of every numeric type (12 values of every magnitude and sign) stored into a variable, array element and record field of every numeric type and used in further arithmetic; quotients that are exactly 2^15 / 2^31 and their negatives computed in SINGLE and in DOUBLE (literals, variables, parenthesised) stored into INTEGER / LONG; FOR headers whose literal start, limit or step does not fit the counter (Overflow before the body runs). monitor: the result of 28 built-in calls (VAL of texts of every magnitude, LEN (also of a string of 60000 characters), INSTR, CVD (also of the bytes of +infinity, -infinity and a NaN), PEEK, VARPTR behind a 72 KB array, VARSEG, LBOUND / UBOUND, EOF, ERR) stored into a variable, array element and record field of every numeric type, and 20 input texts (1e39, 1e400, nan, inf, -inf, 41 digits, ...) read by INPUT and INPUT # into every numeric type — judged by the in-VM monitor alone (a BASIC-level outcome, and no variable ever holds a value of another type, out of range or not finite). Each snippet is judged by the reference semantics (value or Overflow at the right row) and by the in-VM monitor (at every statement start every variable of the current memory block holds a value of its own type and range). Non-trivial = within one unit of a type boundary or beyond it.");
+    ev.set("groups", json!([dgroup]));
+    ev.assume(super::disturbw::ASSUMPTION);
+    ev.set("rule", "conversions: for every ordered pair (source type, target type) of the four numeric types, every value of the target's boundary lattice {MIN-1, MIN-.75, MIN-.25, MIN, MIN+.25, MIN+1, -1, -.75, -.25, 0, .25, .75, 1, MAX-1, MAX-.25, MAX, MAX+.25, MAX+.75, MAX+1} that the source type can denote, delivered through 9 routes (assignment to a variable, an array element, a record field, by-value parameter, FUNCTION result, FOR start with the increment past it, READ, INPUT, FOR limit), the source as a literal and as a typed variable. arithmetic: + - * / MOD and unary minus on all pairs of the INTEGER and LONG boundary lattices (mixed types included), results printed and stored into INTEGER / LONG targets. float-extremes: + - * / and unary minus on every pair from {MAX, MAX/2, -MAX, -MAX/2} x {the same, 2, -2, .5, 2.0, 2.0#, 1, 0} (both orders) of SINGLE and of DOUBLE, printed and stored, observed through comparisons only (a result beyond the type is Overflow, a result that fits is exact); quotients by divisors of 2^-16, 2^-17, 2^-20 (not zero, but below the 0.00001 tolerance of the interpreter's comparisons); DOUBLE values MAX, MAX + 1 ulp and 2 * MAX of SINGLE stored into a SINGLE variable, array element, record field and FUNCTION result. for-steps: FOR with a counter of each numeric type and a step of another type (1.25, 1.75, 2.25, -1.25 as SINGLE / DOUBLE literals and variables, 2, 70000), and the increment past the INTEGER / LONG maximum with a fractional step. close-pairs: two values 2^-20 below and above a rounding tie (2.5, -2.5, .5, 100.5) or a range limit (MAX + .5, MIN - .5, MAX - .5) converted to INTEGER / LONG one right after the other, in both orders, from DOUBLE and SINGLE, as literals, through variables and as by-value arguments of two consecutive calls. unary-and-powers: NOT, unary minus, AND 6 and OR 1 of a variable of every numeric type (12 values of every magnitude and sign) stored into a variable, array element and record field of every numeric type and used in further arithmetic; quotients that are exactly 2^15 / 2^31 and their negatives computed in SINGLE and in DOUBLE (literals, variables, parenthesised) stored into INTEGER / LONG; FOR headers whose literal start, limit or step does not fit the counter (Overflow before the body runs). monitor: the result of 28 built-in calls (VAL of texts of every magnitude, LEN (also of a string of 60000 characters), INSTR, CVD (also of the bytes of +infinity, -infinity and a NaN), PEEK, VARPTR behind a 72 KB array, VARSEG, LBOUND / UBOUND, EOF, ERR) stored into a variable, array element and record field of every numeric type, and 20 input texts (1e39, 1e400, nan, inf, -inf, 41 digits, ...) read by INPUT and INPUT # into every numeric type — judged by the in-VM monitor alone (a BASIC-level outcome, and no variable ever holds a value of another type, out of range or not finite). Each snippet is judged by the reference semantics (value or Overflow at the right row) and by the in-VM monitor (at every statement start every variable of the current memory block holds a value of its own type and range). Non-trivial = within one unit of a type boundary or beyond it. History independence: call programs with numeric parameters of every type run after each disturbing prefix (see the group) with the monitor on: same output and end as alone, and no variable holds a value of another type.");
     ev.set("exhaustive", !run.capped);
     ev.set("plan", json!(plan));
     ev.assume("R1: exact ties (x.5) are never converted to a whole-number type; SINGLE values are exactly representable");
